@@ -11,7 +11,7 @@ META = {
     'rule': ('one evaluation = one frame of a written file whose decoded INDEX-MIN/INDEX-MAX/SPACING/DIRECTION are compared '
              'with exact statistics of the index rows actually written (python integers / float64); signature = (index dtype, '
              'sequence pattern, window?, user-supplied subset, write number); all but plain increasing float64 are non-trivial'),
-    'required_obs': {'quick': ['c13-indexed', 'c13-no-index-type', 'c13-user-supplied', 'c13-assigned-between-writes', 'c13-single-row', 'c13-unsigned-decreasing',
+    'required_obs': {'quick': ['c13-indexed', 'c13-no-index-type', 'c13-user-supplied', 'c13-assigned-between-writes', 'c13-index-channel-cast', 'c13-single-row', 'c13-unsigned-decreasing',
                                'c13-diff-beyond-dtype', 'c13-uniform', 'c13-nonuniform', 'c13-near-uniform', 'c13-nan',
                                'c13-direction-present', 'c13-window', 'c13-rewrite', 'c13-failed-first-write']
                      + ['c13-dtype-' + d for d in gen.DTYPES]},
@@ -124,6 +124,23 @@ def make_spec(r, dt, pat, n=None, order=None):
     units = r.choice([None, 'm', 's', 'ft'])
     sp['ops'].append(gen.channel_op('INDEX', gen.dtstr(dt, order or r.choice('<>')), (n,), fill=fill,
                                     attrs=({'units': units} if units else {})))
+    if r.random() < 0.2:
+        # a declared cast on the INDEX channel: the rows are written in the cast dtype, and the index metadata describe
+        # the rows written (only casts numpy defines: float -> float, integer -> integer, in-range finite float -> integer)
+        import numpy as np
+        d_ = np.dtype(dt)
+        arr_ = np.array([x if x == x else 0 for x in vals], dtype='f8')
+        if d_.kind == 'f':
+            opts = ['float32', 'float64']
+            if np.all(np.isfinite(arr_)) and np.all(np.abs(arr_) < 2 ** 31 - 1) and all(x == x for x in vals):
+                opts += ['int32', 'int32']
+                if np.all(arr_ >= 0) and np.all(arr_ < 65535):
+                    opts.append('uint16')
+        else:
+            opts = ['int8', 'uint8', 'int16', 'uint16', 'int32', 'uint32', 'float32', 'float64']
+        cast = r.choice([o for o in opts if o != np.dtype(dt).name] or opts)
+        sp['ops'][-1]['cast_dtype'] = {'$dtype': cast, 'as': r.choice(['type', 'dtype'])}
+        sp['index_cast'] = cast
     sp['ops'].append(gen.channel_op('VAL', '<f4', (n, 2), fill={'kind': 'pos', 'tag': 3}))
     fat = {}
     if r.random() < 0.85:
@@ -165,6 +182,8 @@ def run_case(case):
     else:
         dt, pat = r.choice(gen.DTYPES), r.choice(PATTERNS)
     sp, sup = make_spec(r, dt, pat)
+    if sp.pop('index_cast', None):
+        bump('c13-index-channel-cast')
     hc = False
 
     def judge(run, wn):
